@@ -28,7 +28,8 @@ git -C /repo worktree remove --force "$CWT" 2>/dev/null
 git -C /repo worktree add --detach "$CWT" HEAD >/dev/null 2>&1
 if git -C "$CWT" apply "$OUT/patch.diff" 2>/dev/null || (cd "$CWT" && patch -p1 --no-backup-if-mismatch < "$OUT/patch.diff" >/dev/null 2>&1); then
   for c in $CHECKS; do
-    REPO="$CWT" timeout 1800 ./check "$c" --tier quick > "$OUT/check_$c.log" 2>&1; rc=$?
+    mkdir -p "$OUT/ev" "$OUT/rp"
+    REPO="$CWT" VERIF_EVIDENCE_DIR="$OUT/ev" VERIF_REPLAY_DIR="$OUT/rp" timeout 1800 ./check "$c" --tier quick > "$OUT/check_$c.log" 2>&1; rc=$?
     echo "check $c rc=$rc: $(grep -E 'VIOLATION|OK property|INFRA' "$OUT/check_$c.log" | head -2 | tr '\n' ' ')"
     caught="$caught $c:$rc"
   done
